@@ -6,6 +6,20 @@ import PraatModel.Query
 
 Exact arithmetic (`Int` timestamps of any size, lists of any length).  Every theorem is about the model
 functions of `Ops.lean` (section "queries"), `Tier.lean`/`Textgrid.lean` (`validate`) and `Query.lean`.
+
+| clause | theorem(s) |
+|---|---|
+| 1 `find` | `find_eq_spec` (`findLabels_mem_exact`, `findLabels_mem_substr`, `findLabels_sorted`) |
+| 2 `getNonEntries` | `nonEntries_tiling` (both formulations: unique cover of `[0, hi)` and the sorted tiling) |
+| 3 `timestamps` | `timestamps_spec` (`itimestamps_spec`, `ptimestamps_spec`) |
+| 4 `getValuesInIntervals` | `valuesInIntervals_spec`, `valuesInInterval_sublist`, `valuesInInterval_mem` |
+| 5 `getValueAtTime` exact | `valueAt_exact_spec`, `valueAt_exact_next`; whole loop: `valuesAtPoints_exact_spec` |
+| 6 `getValueAtTime` fuzzy | `valueAt_fuzzy_nearest` (full statement) |
+| 7 `intervalOverlapCheck` | `overlap_iff` |
+| 8 `invertIntervalList` | `invert_complement`, `invert_empty`, `invert_rejects` |
+| 9 `__eq__` | `eq_refl`, `eq_symm` (`tgeq_irrefl_nospan`: the span hypothesis of the textgrid clause is needed) |
+| 10 `__eq__` | `eq_discriminates`, `ieq_iff` |
+| 11 `validate` | `validate_iff`, `wf_validate`, `pwf_validate` |
 -/
 namespace C15
 
@@ -17,6 +31,7 @@ theorem overlap_iff_excl (a b : Iv Int) :
   simp only [overlapCheck, pyMax2_int, pyMin2_int, Tm.zero]
   simp
   omega
+
 theorem overlap_iff_incl (a b : Iv Int) :
     overlapCheck a b 0 true = true ↔ (max a.s b.s < min a.e b.e ∨ a.s = b.e ∨ a.e = b.s) := by
   obtain ⟨as, ae, al⟩ := a; obtain ⟨bs, be, bl⟩ := b
@@ -1008,5 +1023,424 @@ theorem invert_complement (l : List (Int × Int)) (lo hi : Int) (hne : l ≠ [])
       have := (g1 n hn).2.2.2 a (by simp only [List.mem_append]; exact Or.inl (Or.inr ha))
       omega
 
+
+/-! ## 5. `getValueAtTime`, exact branch -/
+
+/-- index form of "sorted by time" -/
+theorem sorted_index (data : Array (Int × Nat)) (hs : data.toList.Pairwise (fun a b => a.1 ≤ b.1)) :
+    ∀ i j (hi : i < data.size) (hj : j < data.size), i ≤ j → data[i].1 ≤ data[j].1 := by
+  intro i j hi hj hij
+  rcases Nat.lt_or_eq_of_le hij with h | h
+  · have := List.pairwise_iff_getElem.1 hs i j (by simpa using hi) (by simpa using hj) h
+    simpa using this
+  · subst h; exact Int.le_refl _
+
+theorem mem_toList_iff (data : Array (Int × Nat)) (row : Int × Nat) :
+    row ∈ data.toList ↔ ∃ k, ∃ h : k < data.size, data[k] = row := by
+  rw [List.mem_iff_getElem]
+  simp
+
+theorem valueAtExact_core (ts : Int) (data : Array (Int × Nat))
+    (hs : ∀ i j (hi : i < data.size) (hj : j < data.size), i ≤ j → data[i].1 ≤ data[j].1)
+    (fuel i : Nat) (hi : i ≤ data.size) (hfuel : data.size + 1 - i ≤ fuel)
+    (hbefore : ∀ k (h : k < data.size), k < i → data[k].1 < ts) :
+    (∀ row, (valueAtExact ts data fuel i).1 = some row → row ∈ data.toList ∧ row.1 = ts) ∧
+    ((valueAtExact ts data fuel i).1 = none → ∀ row ∈ data.toList, row.1 ≠ ts) ∧
+    i ≤ (valueAtExact ts data fuel i).2 ∧ (valueAtExact ts data fuel i).2 ≤ data.size ∧
+    (∀ k (h : k < data.size), k < (valueAtExact ts data fuel i).2 → data[k].1 < ts) ∧
+    (∀ k (h : k < data.size), k = (valueAtExact ts data fuel i).2 → ts ≤ data[k].1) := by
+  induction fuel generalizing i with
+  | zero => omega
+  | succ fuel ih =>
+    unfold valueAtExact
+    cases hrow : data[i]? with
+    | none =>
+      have hsz : data.size ≤ i := by simpa using hrow
+      simp only
+      refine ⟨by simp, ?_, Nat.le_refl _, hi, hbefore, fun k h hk => by omega⟩
+      intro _ row hrow
+      obtain ⟨k, hk, rfl⟩ := (mem_toList_iff data row).1 hrow
+      have := hbefore k hk (by omega)
+      omega
+    | some row =>
+      obtain ⟨hlt, hrow'⟩ := Array.getElem?_eq_some_iff.1 hrow
+      simp only
+      by_cases hle : ts ≤ row.1
+      · rw [if_pos hle]
+        simp only
+        refine ⟨?_, ?_, Nat.le_refl _, hi, hbefore, fun k h hk => by subst hk; rw [hrow']; exact hle⟩
+        · intro r hr
+          split at hr
+          · rename_i heq
+            simp only [Option.some.injEq] at hr; subst hr
+            exact ⟨(mem_toList_iff data row).2 ⟨i, hlt, hrow'⟩, by simp at heq; omega⟩
+          · cases hr
+        · intro hnone r hr
+          have hne : ts ≠ row.1 := by
+            intro h; simp [h] at hnone
+          obtain ⟨k, hk, rfl⟩ := (mem_toList_iff data r).1 hr
+          by_cases hki : k < i
+          · have := hbefore k hk hki; omega
+          · have := hs i k hlt hk (by omega)
+            rw [hrow'] at this; omega
+      · rw [if_neg hle]
+        have := ih (i + 1) (by omega) (by omega) (by
+          intro k hk hki
+          by_cases h : k < i
+          · exact hbefore k hk h
+          · have : k = i := by omega
+            subst this; rw [hrow']; omega)
+        obtain ⟨h1, h2, h3, h4, h5, h6⟩ := this
+        exact ⟨h1, h2, by omega, h4, h5, h6⟩
+
+/-- **valueAt_exact_spec** -/
+theorem valueAt_exact_spec (ts : Int) (data : Array (Int × Nat))
+    (hs : data.toList.Pairwise (fun a b => a.1 ≤ b.1))
+    (fuel i : Nat) (hi : i ≤ data.size) (hfuel : fuel ≥ data.size + 1 - i)
+    (hbefore : ∀ k (h : k < data.size), k < i → data[k].1 < ts) :
+    (∀ row, (valueAtExact ts data fuel i).1 = some row → row ∈ data.toList ∧ row.1 = ts) ∧
+    ((valueAtExact ts data fuel i).1 = none → ∀ row ∈ data.toList, row.1 ≠ ts) ∧
+    i ≤ (valueAtExact ts data fuel i).2 ∧ (valueAtExact ts data fuel i).2 ≤ data.size ∧
+    (∀ k (h : k < data.size), k < (valueAtExact ts data fuel i).2 → data[k].1 < ts) ∧
+    (∀ k (h : k < data.size), k = (valueAtExact ts data fuel i).2 → ts ≤ data[k].1) :=
+  valueAtExact_core ts data (sorted_index data hs) fuel i hi hfuel hbefore
+
+/-- the invariant carries over to the next (larger or equal) point of `getValuesAtPoints` -/
+theorem valueAt_exact_next (ts ts' : Int) (hts : ts ≤ ts') (data : Array (Int × Nat))
+    (hs : data.toList.Pairwise (fun a b => a.1 ≤ b.1))
+    (fuel i : Nat) (hi : i ≤ data.size) (hfuel : fuel ≥ data.size + 1 - i)
+    (hbefore : ∀ k (h : k < data.size), k < i → data[k].1 < ts) :
+    ∀ k (h : k < data.size), k < (valueAtExact ts data fuel i).2 → data[k].1 < ts' := by
+  intro k hk hlt
+  have := (valueAt_exact_spec ts data hs fuel i hi hfuel hbefore).2.2.2.2.1 k hk hlt
+  omega
+
+/-- single lookup from the start of the data -/
+theorem valueAt_exact_zero (ts : Int) (data : Array (Int × Nat))
+    (hs : data.toList.Pairwise (fun a b => a.1 ≤ b.1)) :
+    (∀ row, (valueAtExact ts data (data.size + 1) 0).1 = some row → row ∈ data.toList ∧ row.1 = ts) ∧
+    ((valueAtExact ts data (data.size + 1) 0).1 = none → ∀ row ∈ data.toList, row.1 ≠ ts) := by
+  have := valueAt_exact_spec ts data hs (data.size + 1) 0 (Nat.zero_le _) (by omega) (by intro k _ h; omega)
+  exact ⟨this.1, this.2.1⟩
+
+
+/-! ## 6. `getValueAtTime`, fuzzy branch -/
+
+theorem tabs_int (x : Int) : tabs x = (x.natAbs : Int) := by
+  simp only [tabs, Tm.zero]; split <;> omega
+
+theorem fuzzyLoop_core (ts : Int) (data : Array (Int × Nat))
+    (hs : ∀ i j (hi : i < data.size) (hj : j < data.size), i ≤ j → data[i].1 ≤ data[j].1)
+    (fuel i : Nat) (best : Int × Nat) (hi : i ≤ data.size) (hfuel : data.size + 1 - i ≤ fuel)
+    (j : Nat) (hj : j < data.size) (hjb : data[j] = best) (hji : j ≤ i)
+    (hopt : ∀ k (h : k < data.size), k < i → (best.1 - ts).natAbs ≤ (data[k].1 - ts).natAbs) :
+    (valueAtFuzzyLoop ts data fuel i best).1 ∈ data.toList ∧
+    (∀ row ∈ data.toList,
+      ((valueAtFuzzyLoop ts data fuel i best).1.1 - ts).natAbs ≤ (row.1 - ts).natAbs) ∧
+    0 ≤ (valueAtFuzzyLoop ts data fuel i best).2 ∧
+    (valueAtFuzzyLoop ts data fuel i best).2 < (data.size : Int) := by
+  induction fuel generalizing i best j with
+  | zero => omega
+  | succ fuel ih =>
+    unfold valueAtFuzzyLoop
+    cases hrow : data[i]? with
+    | none =>
+      have hsz : data.size ≤ i := by simpa using hrow
+      simp only
+      refine ⟨(mem_toList_iff data best).2 ⟨j, hj, hjb⟩, ?_, by omega, by omega⟩
+      intro row hr
+      obtain ⟨k, hk, rfl⟩ := (mem_toList_iff data row).1 hr
+      exact hopt k hk (by omega)
+    | some row =>
+      obtain ⟨hlt, hrow'⟩ := Array.getElem?_eq_some_iff.1 hrow
+      simp only [tabs_int]
+      by_cases h1 : ((row.1 - ts).natAbs : Int) < ((best.1 - ts).natAbs : Int)
+      · rw [if_pos h1]
+        by_cases h0 : (((row.1 - ts).natAbs : Int) == Tm.zero) = true
+        · rw [if_pos h0]
+          have h0' : (row.1 - ts).natAbs = 0 := by
+            simp only [Tm.zero, beq_iff_eq] at h0; omega
+          refine ⟨(mem_toList_iff data row).2 ⟨i, hlt, hrow'⟩, ?_, by simp only; omega, by simp only; omega⟩
+          intro r _
+          simp only; omega
+        · rw [if_neg h0]
+          exact ih (i + 1) row (by omega) (by omega) i hlt hrow' (by omega) (by
+            intro k hk hki
+            by_cases h : k < i
+            · have := hopt k hk h; omega
+            · have : k = i := by omega
+              subst this; rw [hrow']; omega)
+      · rw [if_neg h1]
+        by_cases h2 : ((best.1 - ts).natAbs : Int) < ((row.1 - ts).natAbs : Int)
+        · rw [if_pos h2]
+          simp only
+          have hij : j ≠ i := by
+            intro h; subst h; rw [hjb] at hrow'; subst hrow'; omega
+          refine ⟨(mem_toList_iff data best).2 ⟨j, hj, hjb⟩, ?_, by omega, by omega⟩
+          intro r hr
+          obtain ⟨k, hk, rfl⟩ := (mem_toList_iff data r).1 hr
+          by_cases hki : k < i
+          · exact hopt k hk hki
+          · have e1 := hs j i hj hlt hji
+            have e2 := hs i k hlt hk (by omega)
+            rw [hjb] at e1; rw [hrow'] at e1 e2
+            omega
+        · rw [if_neg h2]
+          exact ih (i + 1) best (by omega) (by omega) j hj hjb (by omega) (by
+            intro k hk hki
+            by_cases h : k < i
+            · exact hopt k hk h
+            · have : k = i := by omega
+              subst this; rw [hrow']; omega)
+
+/-- **valueAt_fuzzy_nearest**: a single fuzzy lookup from the start of sorted, non-empty data returns a sample
+that is nearest to `ts` among all samples -/
+theorem valueAt_fuzzy_nearest (ts : Int) (data : Array (Int × Nat)) (hne : data.size ≠ 0)
+    (hs : data.toList.Pairwise (fun a b => a.1 ≤ b.1)) :
+    ∃ row j, valueAtFuzzy ts data 0 = .ok (row, j) ∧ row ∈ data.toList ∧
+      (∀ r ∈ data.toList, (row.1 - ts).natAbs ≤ (r.1 - ts).natAbs) ∧ 0 ≤ j ∧ j < (data.size : Int) := by
+  have h0 : 0 < data.size := Nat.pos_of_ne_zero hne
+  have hcall : valueAtFuzzy ts data 0 = .ok (valueAtFuzzyLoop ts data (data.size + 1) 0 data[0]) := by
+    unfold valueAtFuzzy
+    simp only [Int.lt_irrefl, if_false, false_or, ge_iff_le, Int.toNat_zero]
+    rw [if_neg (by omega)]
+    rw [Array.getElem?_eq_getElem h0]
+  have := fuzzyLoop_core ts data (sorted_index data hs) (data.size + 1) 0 data[0] (Nat.zero_le _) (by omega)
+    0 h0 rfl (Nat.le_refl _) (by intro k _ h; omega)
+  exact ⟨_, _, hcall, this⟩
+
+
+
+/-! ## 5b. the multi-point loop of `getValuesAtPoints` (exact matching) -/
+
+def exactGo (sorted : Array (Int × Nat)) : List (Pt Int) → Nat → List (Option (Int × Nat)) → List (Option (Int × Nat))
+  | [], _, out => out
+  | p :: ps, idx, out =>
+    exactGo sorted ps (valueAtExact p.t sorted (sorted.size + 1) idx).2
+      (out ++ [(valueAtExact p.t sorted (sorted.size + 1) idx).1])
+
+theorem exact_forIn (sorted : Array (Int × Nat)) (ps : List (Pt Int)) (idx : Nat) (out : List (Option (Int × Nat))) :
+    ∃ k : Int, (forIn (m := Except Err) ps ((idx : Int), out) fun p s =>
+      pure (ForInStep.yield
+        (((valueAtExact p.t sorted (sorted.size + 1) s.fst.toNat).snd : Int),
+          s.snd ++ [(valueAtExact p.t sorted (sorted.size + 1) s.fst.toNat).fst]))) =
+      .ok (k, exactGo sorted ps idx out) := by
+  induction ps generalizing idx out with
+  | nil => exact ⟨idx, rfl⟩
+  | cons p ps ih =>
+    obtain ⟨k, hk⟩ := ih (valueAtExact p.t sorted (sorted.size + 1) idx).2
+      (out ++ [(valueAtExact p.t sorted (sorted.size + 1) idx).1])
+    refine ⟨k, ?_⟩
+    simp only [List.forIn_cons, pure_bind, Int.toNat_natCast, exactGo]
+    exact hk
+
+theorem valuesAtPoints_exact_unfold (t : PTier Int) (data : List (Int × Nat)) :
+    t.valuesAtPoints data false = .ok (exactGo (data.mergeSort sampleLe).toArray t.ps 0 []) := by
+  unfold PTier.valuesAtPoints
+  simp only [Bool.false_eq_true, if_false]
+  obtain ⟨k, hk⟩ := exact_forIn (data.mergeSort sampleLe).toArray t.ps 0 []
+  simp only [Int.natCast_zero] at hk
+  rw [hk]
+  rfl
+
+theorem sampleLe_time {a b : Int × Nat} (h : sampleLe a b = true) : a.1 ≤ b.1 := by
+  unfold sampleLe at h
+  split at h
+  · omega
+  · split at h
+    · simp at h
+    · omega
+
+theorem sampleLe_trans (a b c : Int × Nat) (h1 : sampleLe a b = true) (h2 : sampleLe b c = true) :
+    sampleLe a c = true := by
+  obtain ⟨a1, a2⟩ := a; obtain ⟨b1, b2⟩ := b; obtain ⟨c1, c2⟩ := c
+  simp only [sampleLe] at *
+  grind
+
+theorem sampleLe_total (a b : Int × Nat) : (sampleLe a b || sampleLe b a) = true := by
+  obtain ⟨a1, a2⟩ := a; obtain ⟨b1, b2⟩ := b
+  simp only [sampleLe]
+  grind
+
+theorem sortedData (data : List (Int × Nat)) :
+    (data.mergeSort sampleLe).toArray.toList.Pairwise (fun a b => a.1 ≤ b.1) := by
+  have := List.pairwise_mergeSort sampleLe_trans sampleLe_total data
+  exact this.imp sampleLe_time
+
+
+/-- what one exact lookup must satisfy -/
+def ExactOk (rows : List (Int × Nat)) (ts : Int) (o : Option (Int × Nat)) : Prop :=
+  (∀ row, o = some row → row ∈ rows ∧ row.1 = ts) ∧ (o = none → ∀ row ∈ rows, row.1 ≠ ts)
+
+theorem exactGo_spec (sorted : Array (Int × Nat)) (hs : sorted.toList.Pairwise (fun a b => a.1 ≤ b.1))
+    (ps : List (Pt Int)) (idx : Nat) (out : List (Option (Int × Nat)))
+    (hps : ps.Pairwise (fun a b => a.t ≤ b.t)) (hidx : idx ≤ sorted.size)
+    (hbefore : ∀ p ∈ ps, ∀ k (h : k < sorted.size), k < idx → sorted[k].1 < p.t) :
+    ∃ res, exactGo sorted ps idx out = out ++ res ∧ res.length = ps.length ∧
+      ∀ pr ∈ ps.zip res, ExactOk sorted.toList pr.1.t pr.2 := by
+  induction ps generalizing idx out with
+  | nil => exact ⟨[], by simp [exactGo], rfl, by simp⟩
+  | cons p ps ih =>
+    obtain ⟨hp1, hp2⟩ := List.pairwise_cons.1 hps
+    have hspec := valueAt_exact_spec p.t sorted hs (sorted.size + 1) idx hidx (by omega)
+      (hbefore p (by simp))
+    obtain ⟨s1, s2, s3, s4, s5, _⟩ := hspec
+    obtain ⟨res, e1, e2, e3⟩ := ih (valueAtExact p.t sorted (sorted.size + 1) idx).2
+      (out ++ [(valueAtExact p.t sorted (sorted.size + 1) idx).1]) hp2 s4
+      (by
+        intro q hq k hk hlt
+        have := s5 k hk hlt
+        have := hp1 q hq
+        omega)
+    refine ⟨(valueAtExact p.t sorted (sorted.size + 1) idx).1 :: res, ?_, by simp [e2], ?_⟩
+    · simp only [exactGo, e1, List.append_assoc, List.singleton_append]
+    · intro pr hpr
+      simp only [List.zip_cons_cons, List.mem_cons] at hpr
+      rcases hpr with rfl | hpr
+      · exact ⟨s1, s2⟩
+      · exact e3 pr hpr
+
+/-- **getValuesAtPoints, exact matching**: for a point tier whose points are in time order (any well-formed
+tier) and arbitrary data, the call succeeds with one answer per point; `some row` is a sample of the data at
+exactly the point's time, `none` means the data has no sample at that time -/
+theorem valuesAtPoints_exact_spec (t : PTier Int) (hps : t.ps.Pairwise (fun a b => a.t ≤ b.t))
+    (data : List (Int × Nat)) :
+    ∃ out, t.valuesAtPoints data false = .ok out ∧ out.length = t.ps.length ∧
+      ∀ pr ∈ t.ps.zip out, ExactOk data pr.1.t pr.2 := by
+  obtain ⟨res, e1, e2, e3⟩ := exactGo_spec (data.mergeSort sampleLe).toArray (sortedData data) t.ps 0 [] hps
+    (Nat.zero_le _) (by intro _ _ k _ h; omega)
+  refine ⟨res, ?_, e2, ?_⟩
+  · rw [valuesAtPoints_exact_unfold, e1]; rfl
+  · intro pr hpr
+    have := e3 pr hpr
+    simp only [ExactOk, List.mem_mergeSort] at this ⊢
+    exact this
+
+theorem valuesAtPoints_exact_wf (t : PTier Int) (hwf : t.WF) (data : List (Int × Nat)) :
+    ∃ out, t.valuesAtPoints data false = .ok out ∧ out.length = t.ps.length ∧
+      ∀ pr ∈ t.ps.zip out, ExactOk data pr.1.t pr.2 :=
+  valuesAtPoints_exact_spec t (hwf.sorted.imp Pt.le_time) data
+
+
+/-! ## the property clauses under their catalogue names -/
+
+/-- **find_eq_spec** -/
+theorem find_eq_spec (ls : List String) (q : String) :
+    (∀ i, i ∈ findLabels ls q false ↔ ls[i]? = some q) ∧
+    (∀ i, i ∈ findLabels ls q true ↔ ∃ l, ls[i]? = some l ∧ ((l.splitOn q).length > 1 ∨ q.isEmpty)) ∧
+    (∀ b, (findLabels ls q b).Pairwise (· < ·)) :=
+  ⟨findLabels_mem_exact ls q, findLabels_mem_substr ls q, findLabels_sorted ls q⟩
+
+/-- **timestamps_spec** -/
+theorem timestamps_spec :
+    (∀ t : ITier Int, t.timestamps.Pairwise (· < ·) ∧
+      ∀ x, x ∈ t.timestamps ↔ ∃ iv ∈ t.es, x = iv.s ∨ x = iv.e) ∧
+    (∀ t : PTier Int, t.timestamps.Pairwise (· < ·) ∧ ∀ x, x ∈ t.timestamps ↔ ∃ p ∈ t.ps, x = p.t) :=
+  ⟨itimestamps_spec, ptimestamps_spec⟩
+
+/-- **eq_refl** -/
+theorem eq_refl :
+    (∀ t : ITier Int, t.eq t = true) ∧ (∀ t : PTier Int, t.eq t = true) ∧
+    (∀ t : AnyTier Int, t.eq t = true) ∧
+    (∀ g : Tg Int, g.lo.isSome → g.hi.isSome → g.eq g = true) :=
+  ⟨ieq_refl, peq_refl, anyeq_refl, tgeq_refl⟩
+
+/-- a textgrid without a span is not equal to itself (Python: `isclose(None, …)` is not reached; the model's
+`optClose14` answers `false`) — the hypothesis of `tgeq_refl` is needed -/
+theorem tgeq_irrefl_nospan (g : Tg Int) (h : g.lo = none ∨ g.hi = none) : g.eq g = false := by
+  obtain ⟨ts, lo, hi⟩ := g
+  simp only at h
+  rcases h with rfl | rfl
+  · simp [Tg.eq, optClose14]
+  · cases lo <;> simp [Tg.eq, optClose14]
+
+/-- **eq_symm** -/
+theorem eq_symm :
+    (∀ t u : ITier Int, t.eq u = u.eq t) ∧ (∀ t u : PTier Int, t.eq u = u.eq t) ∧
+    (∀ t u : AnyTier Int, t.eq u = u.eq t) ∧ (∀ g h : Tg Int, g.eq h = h.eq g) :=
+  ⟨ieq_symm, peq_symm, anyeq_symm, tgeq_symm⟩
+
+/-- **eq_discriminates** -/
+theorem eq_discriminates :
+    (∀ t u : ITier Int, t.eq u = true →
+      t.name = u.name ∧ Tm.close9 t.lo u.lo = true ∧ Tm.close9 t.hi u.hi = true ∧
+      t.es.length = u.es.length ∧ t.es.map (·.l) = u.es.map (·.l) ∧
+      ∀ p ∈ t.es.zip u.es, Tm.close9 p.1.s p.2.s = true ∧ Tm.close9 p.1.e p.2.e = true) ∧
+    (∀ t u : PTier Int, t.eq u = true →
+      t.name = u.name ∧ Tm.close9 t.lo u.lo = true ∧ Tm.close9 t.hi u.hi = true ∧
+      t.ps.length = u.ps.length ∧ t.ps.map (·.l) = u.ps.map (·.l) ∧
+      ∀ p ∈ t.ps.zip u.ps, Tm.close9 p.1.t p.2.t = true) ∧
+    (∀ (t : ITier Int) (u : PTier Int), AnyTier.eq (.I t) (.P u) = false ∧ AnyTier.eq (.P u) (.I t) = false) :=
+  ⟨ieq_discriminates, peq_discriminates, eq_mixed⟩
+
+/-- **validate_iff** -/
+theorem validate_iff :
+    (∀ t : ITier Int, t.validate = true ↔
+      (∀ iv ∈ t.es, iv.s < iv.e ∧ t.lo ≤ iv.s ∧ iv.e ≤ t.hi) ∧ AdjLe t.es) ∧
+    (∀ t : ITier Int, t.validate = true ↔
+      (∀ iv ∈ t.es, iv.s < iv.e ∧ t.lo ≤ iv.s ∧ iv.e ≤ t.hi) ∧ Disj t.es) ∧
+    (∀ t : PTier Int, t.validate = true ↔ (∀ p ∈ t.ps, t.lo ≤ p.t ∧ p.t ≤ t.hi) ∧ PAdjLe t.ps) ∧
+    (∀ t : PTier Int, t.validate = true ↔
+      (∀ p ∈ t.ps, t.lo ≤ p.t ∧ p.t ≤ t.hi) ∧ t.ps.Pairwise (fun a b => a.t ≤ b.t)) ∧
+    (∀ g : Tg Int, g.validate = true ↔
+      g.names.Nodup ∧ ∀ t ∈ g.tiers, g.lo = some t.lo ∧ g.hi = some t.hi ∧ t.validate = true) :=
+  ⟨ivalidate_iff, ivalidate_iff_disj, pvalidate_iff, pvalidate_iff_sorted, tgvalidate_iff⟩
+
+/-! ## non-vacuity -/
+
+def exTier : ITier Int := ⟨"T", [⟨10, 30, "a"⟩, ⟨30, 60, "b"⟩, ⟨80, 90, "a"⟩], 0, 100⟩
+def exPts : PTier Int := ⟨"P", [⟨5, "x"⟩, ⟨40, "y"⟩, ⟨40, "z"⟩, ⟨70, "x"⟩], 0, 100⟩
+def exData : Array (Int × Nat) := #[(0, 0), (5, 1), (30, 2), (38, 3), (43, 4), (70, 5), (70, 6), (99, 7)]
+
+theorem exTier_wf : exTier.WF := by
+  refine ⟨?_, ?_, ?_, ?_, ?_, ?_⟩ <;> simp [exTier, Pos, Disj, Stripped] <;> decide
+
+theorem exPts_wf : exPts.WF := by
+  refine ⟨?_, ?_, ?_, ?_, ?_⟩ <;> simp [exPts] <;> decide
+
+theorem exData_sorted : exData.toList.Pairwise (fun a b => a.1 ≤ b.1) := by
+  simp [exData]
+
+/-- the hypotheses of `nonEntries_tiling` are satisfiable -/
+theorem exTier_tiling : ∃ ns, exTier.getNonEntries = .ok ns ∧ Touch (sortIvs (exTier.es ++ ns)) := by
+  obtain ⟨ns, h, _, _, _, _, _, _, _, _, ht⟩ := nonEntries_tiling exTier exTier_wf (by simp [exTier]) (by simp [exTier])
+  exact ⟨ns, h, ht⟩
+
+#guard exTier.getNonEntries.toOption == some [⟨0, 10, ""⟩, ⟨60, 80, ""⟩, ⟨90, 100, ""⟩]
+#guard (exTier.getNonEntries.toOption.map fun ns => sortIvs (exTier.es ++ ns)) ==
+  some [⟨0, 10, ""⟩, ⟨10, 30, "a"⟩, ⟨30, 60, "b"⟩, ⟨60, 80, ""⟩, ⟨80, 90, "a"⟩, ⟨90, 100, ""⟩]
+#guard findLabels (exTier.es.map (·.l)) "a" false == [0, 2]
+#guard findLabels ["ab", "b", "cab"] "ab" true == [0, 2]
+#guard exTier.timestamps == [10, 30, 60, 80, 90]
+#guard exPts.timestamps == [5, 40, 70]
+#guard exTier.valuesInIntervals exData.toList ==
+  [(⟨10, 30, "a"⟩, [(30, 2)]), (⟨30, 60, "b"⟩, [(30, 2), (38, 3), (43, 4)]), (⟨80, 90, "a"⟩, [])]
+#guard valueAtExact 70 exData (exData.size + 1) 0 == (some (70, 5), 5)
+#guard valueAtExact 40 exData (exData.size + 1) 0 == (none, 4)
+#guard (valueAtFuzzy 40 exData 0).toOption == some ((38, 3), 3)
+#guard (valueAtFuzzy 41 exData 0).toOption == some ((43, 4), 4)
+#guard (valueAtFuzzy 1000 exData 0).toOption == some ((99, 7), 7)
+#guard (exPts.valuesAtPoints exData.toList false).toOption == some [some (5, 1), none, none, some (70, 5)]
+#guard (exPts.valuesAtPoints exData.toList true).toOption == some [some (5, 1), some (38, 3), some (38, 3), some (70, 5)]
+#guard overlapCheck (⟨0, 10, ""⟩ : Iv Int) ⟨10, 20, ""⟩ 0 false == false
+#guard overlapCheck (⟨0, 10, ""⟩ : Iv Int) ⟨10, 20, ""⟩ 0 true == true
+#guard overlapCheck (⟨0, 10, ""⟩ : Iv Int) ⟨7, 20, ""⟩ 3 false == true
+#guard overlapCheck (⟨0, 10, ""⟩ : Iv Int) ⟨7, 20, ""⟩ 4 false == false
+#guard (invertIntervalList [((10 : Int), (30 : Int)), (30, 60), (80, 90)] (some 0) (some 100)).toOption ==
+  some [(0, 10), (60, 80), (90, 100)]
+#guard (invertIntervalList [((10 : Int), (30 : Int))] (some 10) (some 30)).toOption == some []
+#guard (invertIntervalList ([] : List (Int × Int)) (some 0) (some 5)).toOption == some [(0, 5)]
+#guard (invertIntervalList [((3 : Int), (3 : Int))] (some 0) (some 5)).toOption == none
+#guard exTier.validate && exPts.validate
+#guard !(⟨"T", [⟨10, 30, "a"⟩, ⟨20, 60, "b"⟩], 0, 100⟩ : ITier Int).validate
+#guard !(⟨"T", [⟨10, 30, "a"⟩], 0, 20⟩ : ITier Int).validate
+#guard (⟨[.I exTier, .P exPts], some 0, some 100⟩ : Tg Int).validate
+#guard !(⟨[.I exTier, .P exPts], some 0, some 90⟩ : Tg Int).validate
+#guard !(⟨[.I exTier, .I exTier], some 0, some 100⟩ : Tg Int).validate
+#guard exTier.eq exTier && !exTier.eq { exTier with name := "U" }
+#guard !exTier.eq { exTier with es := exTier.es.take 2 }
+#guard AnyTier.eq (.I exTier) (.P exPts) == false
+#guard (⟨[.I exTier], some 0, some 100⟩ : Tg Int).eq ⟨[.I exTier], some 0, some 100⟩
+#guard !(⟨[.I exTier], none, some 100⟩ : Tg Int).eq ⟨[.I exTier], none, some 100⟩
 
 end C15
